@@ -19,8 +19,8 @@ pub static DEF: PropDef = PropDef {
     level: "exploration",
     rule: "each case: one hostile header — element type in {Binary, Utf8, UnsignedInt, raw tag (unknown id, tolerated), master} x declared size in {0, 1, M-1, M, M+1, 2M, 2^20, 2^32, 4*10^9, 4*10^9+1, 2^40, 2^56-2, random} encoded in a random vint width that can hold it x position {root, inside a known-size master (with and without oversize tolerance), inside an unknown-size master} x payload {absent, a few bytes, complete when small} x size limit M in {0, 5, 4096, 64 KiB, 1 MiB, default 4*10^9 (declared sizes <= 64 MiB only)} x initial capacity {16, 4096, 65536} x all 8 tolerance subsets — parsed by the real iterator (next() until the first error/None, then one try_recover() and next()). Around every API call the counting allocator measures peak live-heap growth and the largest single request on that thread; both must stay <= 16*max(B, capacity, 64 KiB) + 1 MiB where, while the probed element is being handled, B = its declared size if within the limit, else 0, and afterwards (elements found in the random payload) B = M; an element declaring more than the limit must not be returned as an item nor reach its payload (the call must end in InvalidTagSize or an earlier check's error: InvalidTagId / HierarchyError / OversizedChildElement / InvalidTagData); no panic or arithmetic overflow (overflow checks are on). distinct = (type, size class relative to M, width, position, limit, capacity, tolerance); non-trivial iff declared size > capacity.",
     assumptions: &["the constant 16 is deliberately loose (today's worst legitimate ratio is about 3: old buffer + grown buffer + the payload copy handed to the tag); the faults this property is about are off by 10^3-10^12", "with the limit removed (None) nothing is promised; not exercised", "default-limit acceptance is only exercised up to 64 MiB declared"],
-    cases_quick: 30_000,
-    cases_thorough: 1_000_000,
+    cases_quick: 800_000,
+    cases_thorough: 8_000_000,
     floors: &[("api_calls_measured", 60_000), ("over_limit_headers", 8_000), ("within_limit_missing_payload", 5_000), ("distinct_nontrivial", 800), ("rejected_InvalidTagSize", 3_000)],
     exhaustive_note: None,
     run,
